@@ -28,9 +28,14 @@ def proofRoot {H : Type} [HashOps H] (leafHash : H) (leafIndex : Nat) (proof : L
 def lastLeafIndex (filesize : Nat) : Nat :=
   if filesize % 64 = 0 then (filesize / 64 + 18446744073709551615) % 18446744073709551616 else filesize / 64
 
+/-- consensus/merkle.go `storageProofSubtreeHeight(leafIndex, filesize)`: the height at which the path
+of the leaf merges with the path of the last leaf -/
+def storageProofSubtreeHeight (leafIndex filesize : Nat) : Nat :=
+  bitLen (leafIndex ^^^ lastLeafIndex filesize)
+
 /-- consensus/merkle.go `storageProofRoot(leafHash, leafIndex, filesize, proof)` (v2 contracts) -/
 def storageProofRoot {H : Type} [HashOps H] (leafHash : H) (leafIndex filesize : Nat) (proof : List H) : H :=
-  let subtreeHeight := bitLen (leafIndex ^^^ lastLeafIndex filesize)
+  let subtreeHeight := storageProofSubtreeHeight leafIndex filesize
   if proof.length < subtreeHeight then zero
   else (proof.drop subtreeHeight).foldl (fun root h => node h root)
     (proofRoot leafHash leafIndex (proof.take subtreeHeight))
@@ -77,8 +82,18 @@ def verifyV1 {H : Type} [HashOps H] [DecidableEq H] (era : Era) (leafIndex files
     if filesize > 0 ∧ proof.length < bitLen (leafIndex ^^^ lastLeafIndex filesize) then false
     else decide (storageProofRootV1 leafIndex filesize lf proof = root)
 
-/-- the verdict of the v2 check: `storageProofRoot(StorageProofLeafHash(leaf), leafIndex, filesize, proof) == root` -/
+/-- the verdict of the v2 storage-proof check in `validateV2FileContracts` (after the height and
+history checks and the computation of the leaf index):
+`fc.Filesize > 0 && len(sp.Proof) < storageProofSubtreeHeight(leafIndex, fc.Filesize)` ⇒ reject
+("too few proof hashes", added by fix a3a6e71), then
+`storageProofRoot(StorageProofLeafHash(leaf), leafIndex, filesize, proof) == root` -/
 def verifyV2 {H : Type} [HashOps H] [DecidableEq H] (leafIndex filesize : Nat) (leaf64 : ByteArray)
+    (proof : List H) (root : H) : Bool :=
+  if filesize > 0 ∧ proof.length < storageProofSubtreeHeight leafIndex filesize then false
+  else decide (storageProofRoot (leaf (padLeaf leaf64)) leafIndex filesize proof = root)
+
+/-- the v2 verdict BEFORE fix a3a6e71 (no guard): kept for `C07.c07_v2_zero_root_counterexample` -/
+def verifyV2NoGuard {H : Type} [HashOps H] [DecidableEq H] (leafIndex filesize : Nat) (leaf64 : ByteArray)
     (proof : List H) (root : H) : Bool :=
   decide (storageProofRoot (leaf (padLeaf leaf64)) leafIndex filesize proof = root)
 
